@@ -1,6 +1,7 @@
 CONSTANTS
  Mode = "gen"
  HistLen = 2
+ LenientRelabel = FALSE
  RestartSets = {{1}}
 INIT RInit
 NEXT RNext
